@@ -270,9 +270,10 @@ def check_property(pid, tier, only_group=None, only_unit=None, verbose=False):
         wall_s=round(time.time() - t0, 2),
         violations=len(violations),
     )
-    os.makedirs(os.path.join(VERIF, 'evidence'), exist_ok=True)
-    with open(os.path.join(VERIF, 'evidence', pid + '.json'), 'w') as f:
-        json.dump(ev, f, indent=1)
+    if not os.environ.get('VF_NO_EVIDENCE'):
+        os.makedirs(os.path.join(VERIF, 'evidence'), exist_ok=True)
+        with open(os.path.join(VERIF, 'evidence', pid + '.json'), 'w') as f:
+            json.dump(ev, f, indent=1)
     print('%s tier=%s: %d/%d obligations discharged in %d units (+%d bounded/second-backend), %d/%d canaries reachable, %.1fs%s' % (
         pid, tier, n_ok, n_ob, len(fn_rows), len(bounded), n_canary_ok, n_canary, time.time() - t0,
         '' if rc == 0 else (' -> VIOLATION' if rc == 1 else ' -> UNDECIDED')))
